@@ -45,11 +45,12 @@ NAME_BASES = ["item", "name", "val", "x-y", "a.b", "Entry", "node", "k", "class"
 
 
 # ------------------------------------------------------------------ hidden regular models
-def gen_hidden(r, kind, nil_rate=0.08):
+def gen_hidden(r, kind, nil_rate=0.08, prims=None):
     """A hidden *regular* model in genmodels' description format: every element name is used for one type
     only (names are globally unique), simple-content classes hold Text + attributes, complex ones elements +
     attributes, mixed ones a mixed wildcard whose children are leaves."""
     xml = kind == "xml"
+    PRIMS = list(prims or globals()["PRIMS"])
     n = r.choice([1, 2, 2, 3, 3, 4, 5])
     module_ns = r.choice([None, None, None] + NS) if xml else None
     used = set()
@@ -185,7 +186,9 @@ def gen_val(r, m, f, kind, sparse, tricky, depth):
 def gen_set(r, kind, idx):
     nil_rate = 0.0 if idx % 2 == 0 else 0.08
     tricky = idx % 5 == 4
-    m = gen_hidden(r, kind, nil_rate)
+    # the JsonSerializer writes Decimals as JSON strings (finding F6): half of the JSON sets do without them
+    prims = [p for p in PRIMS if p != "Decimal"] if (kind == "json" and idx % 6 == 2) else None
+    m = gen_hidden(r, kind, nil_rate, prims)
     k = r.choice([1, 2, 3, 4])
     insts = [gen_inst(r, m, "C0", kind, sparse=(j % 2 == 1), tricky=tricky) for j in range(k)]
     ser = {"indent": None, "ns_map": None, "as_list": False}
@@ -451,7 +454,7 @@ def run(ck: Check):
     ck.level = "translation_validation"
     obligations, discharged, axioms = standard_proof_step(ck, extra_targets=["Model/SampleCorr.vo", "Proofs/SampleGuarded.vo"])
     r = ck.rng
-    NSETS = int(os.environ.get("C13_NSETS") or ck.n(120, 3000))
+    NSETS = int(os.environ.get("C13_NSETS") or ck.n(200, 3000))
 
     sets = []
     if getattr(ck, "replay_file", None):
@@ -537,6 +540,7 @@ def run(ck: Check):
         val_row, same_row = v[-2], v[-1]
         for j, dr in enumerate(rs["docs"]):
             stats["docs"] += 1
+            stats["docs_" + kind] = stats.get("docs_" + kind, 0) + 1
             distinct.add((i, j))
             out = outcome_of(dr, bool(same_row[j]))
             val = val_row[j]
@@ -544,6 +548,7 @@ def run(ck: Check):
             failing = [(cls, outs) for row, cls, outs in guards if not v[row][j]]
             regular = not failing
             stats["docs_regular"] += regular
+            stats["docs_regular_" + kind] = stats.get("docs_regular_" + kind, 0) + regular
             if out == "ok":
                 stats["docs_ok"] += 1
                 stats["docs_regular_ok"] += regular
